@@ -35,8 +35,8 @@ def property_reading(c, events, proj, how, drift_sig, drift_detail):
         return
     m3 = tlc_trace(c, "Trace_Poll_property", proj)
     if not m3:
-        c.mismatches.append({"t": "mismatch", "kind": "drift", "sig": "C18/budget_shape", "case": None,
-                             "detail": "explained only with a retry budget other than 5/10 (event %d %s)" % (m2[0][2], pe[m2[0][2] - 1])})
+        c.mismatches.append({"t": "mismatch", "kind": "drift", "sig": "C18/shape_open_in_the_statement", "case": None,
+                             "detail": "explained only by the property reading (a retry budget other than 5/10, or another chunk of the next volume) at event %d %s" % (m2[0][2], pe[m2[0][2] - 1])})
         return
     sig, idx = m3[0][1], m3[0][2]
     ev = pe[idx - 1] if 0 < idx <= len(pe) else None
